@@ -251,6 +251,21 @@ def run(ck, fb, fbd):
         else:
             ck.violate("G.enable", f.where, "%s(false) does not clear %s under exactly !_enable" % (f.name, cache), "G.enable:%s:clear" % f.pq)
 
+    # ---------------- the global switch forwards to all three kinds, whatever the current state is
+    ck.rule("G.enable.all", "enable_bottom_up_incidences(b) calls the enable function of every kind with b on every path (no shortcut on the current state: has_full_bottom_up_incidences() is false in every partial configuration, so `b == has_full()` is no test for 'nothing to do')")
+    from .canon import Canon
+    ga = [g for g in fb.by_cls.get(TK, []) if g.name == "enable_bottom_up_incidences" and g.has_cfg]
+    if len(ga) != 1:
+        raise AnalysisBroken("anchor vanished: TopologyKernel::enable_bottom_up_incidences (%d)" % len(ga))
+    ga = ga[0]
+    cga = Canon(ga)
+    pdg = ga.postdominators()
+    for cache, k in cm.kinds.items():
+        sites = [(b, i, x) for b, i, x in ga.nodes(("call",)) if x.get("u") == k["enable"] and b in ga.reach()]
+        ok = any(b in pdg.get(ga.entry, ()) and len(x.get("a", [])) == 1 and cga.s(x["a"][0]) == "P0" for b, i, x in sites)
+        why = "called with the parameter on every path" if ok else ("no call" if not sites else "only under %s" % sorted({(s_, p_) for b, i, x in sites for s_, p_, c_ in cga.facts(b)})[:2] if not any(b in pdg.get(ga.entry, ()) for b, i, x in sites) else "argument is %s" % [cga.s(x["a"][0]) for b, i, x in sites][:1])
+        (ck.ok if ok else lambda r_, w_, t_: ck.violate(r_, w_, t_, "G.enable.all:%s" % k["enable_name"]))("G.enable.all", ga.where, "enable_bottom_up_incidences forwards to %s (%s)" % (k["enable_name"], why))
+
     # ---------------- stale-flag window: between compute_k() and the flag write nothing may consult flag k
     ck.rule("G.stale", "inside enable_k, no function called between compute_k() and the write of the flag may (transitively) read that flag: it would still see the kind as disabled")
     memo = {}
@@ -315,6 +330,8 @@ def run(ck, fb, fbd):
     # skip pending (deferred) deletions exactly as the unlink sites of delete_*_core do (shared with C01/C04)
     lockstep.compute_rule(lc)
     lockstep.value_rules_rebuild(lc)
+    # index swaps with a kind disabled take the linear-scan sibling of every cache-guided relabel (shared with C17)
+    lockstep.relabel_rules(lc)
 
     ck.analysed.update({"functions_scanned": len(fns), "element_access_sites": n_sites, "sites_discharged_locally": n_guarded, "call_sites_checked": n_call_checks,
                         "functions_with_contract": len(contracts), "per_cache_sites": dict(per_cache)})
